@@ -59,6 +59,7 @@ func main() {
 		}
 		runCase(&c, sum, cases, i)
 	}
+	gatedChecks(sum, 6)
 	cases.Flush()
 	sum.CaseFiles = cases.Files
 	sum.Write(*out)
@@ -186,12 +187,22 @@ func doReplay(path string) int {
 	}
 	var rp struct {
 		Replay struct {
-			Case *Case `json:"case"`
+			Case  *Case          `json:"case"`
+			Gated *gatedScenario `json:"gated"`
 		} `json:"replay"`
 	}
 	if err := json.Unmarshal(raw, &rp); err != nil {
 		fmt.Println("bad replay:", err)
 		return 2
+	}
+	if rp.Replay.Gated != nil {
+		key, what := runGated(*rp.Replay.Gated)
+		if key != "" && key != "harness" {
+			fmt.Printf("REPRODUCED %s: %s\n", key, what)
+			return 1
+		}
+		fmt.Println("not reproduced", what)
+		return 0
 	}
 	if rp.Replay.Case == nil {
 		fmt.Println("replay file carries no case (no failing input was found)")
